@@ -62,6 +62,7 @@ func dispOp(c *Ctx, op string) {
 		used := ""
 		icpt := &specIcpt{}
 		userRuns := 0
+		var userSpec connect.Spec
 		opts := []connect.HandlerOption{connect.WithInterceptors(icpt)}
 		for _, name := range strings.Split(a["codecs"], ",") {
 			opts = append(opts, connect.WithCodec(trackCodec{rawCodec{name}, &used}))
@@ -71,6 +72,7 @@ func dispOp(c *Ctx, op string) {
 		case "unary":
 			h = connect.NewUnaryHandler(procedure, func(ctx context.Context, r *connect.Request[[]byte]) (*connect.Response[[]byte], error) {
 				userRuns++
+				userSpec = r.Spec()
 				return connect.NewResponse(&[]byte{1}), nil
 			}, opts...)
 		case "client":
@@ -83,6 +85,7 @@ func dispOp(c *Ctx, op string) {
 		case "server":
 			h = connect.NewServerStreamHandler(procedure, func(ctx context.Context, r *connect.Request[[]byte], s *connect.ServerStream[[]byte]) error {
 				userRuns++
+				userSpec = r.Spec()
 				return nil
 			}, opts...)
 		default:
@@ -133,6 +136,9 @@ func dispOp(c *Ctx, op string) {
 			if res.Trailer.Get("Grpc-Status") != "" {
 				proto = "grpc"
 			}
+		}
+		if userRuns > 0 && (a["kind"] == "unary" || a["kind"] == "server") && (userSpec.StreamType != icpt.spec.StreamType || userSpec.Procedure != icpt.spec.Procedure) {
+			c.Fail("disp-user-spec", op, fmt.Sprintf("user code saw %q/%d, interceptor saw %q/%d", userSpec.Procedure, userSpec.StreamType, icpt.spec.Procedure, icpt.spec.StreamType), "user code must observe the Spec the handler was built with, as the interceptors do (the model decides the interceptor's view)")
 		}
 		return fmt.Sprintf("run proto=%s codec=%s ran=%d/%d spec=%s:%d", proto, used, userRuns, icpt.count, hx([]byte(icpt.spec.Procedure)), icpt.spec.StreamType)
 	})
